@@ -24,6 +24,8 @@ for d in sorted(os.listdir(os.path.join(V, "seeded")), key=lambda x: (x.split("-
     if not caught and m.get("judgement"):
         # a seed the property text does not forbid (my judgement, with the reason): not detected on purpose
         verdict = "not flagged on purpose: " + m["judgement"]
+    if not caught and m.get("undetected_reason"):
+        verdict = "**NOT caught**: " + m["undetected_reason"]
     rows.append("| %s | %s | %s | %s%s |" % (d, m.get("property", "?"), summ, verdict, note))
 table = "| seed | breaks | change | caught by (clauses) |\n| --- | --- | --- | --- |\n" + "\n".join(rows)
 n = len(rows)
